@@ -187,7 +187,7 @@ def conserve_options(case, explicit):
     return out
 
 
-def replay_case(ctx, case, combo):
+def replay_case(ctx, case, combo, model=None):
     """Build the real model with the representation options `combo` and compare every representation."""
     from tenpy.algorithms import exact_diag as ted
     explicit, conserve, sort_legs = combo['explicit'], combo['conserve'], combo['sort']
@@ -199,7 +199,10 @@ def replay_case(ctx, case, combo):
         ctx.replay_actions['C10.skipped-empty-model'] = ctx.replay_actions.get('C10.skipped-empty-model', 0) + 1
         return None
     try:
-        M = hm.build_model(cfg, decls, explicit_plus_hc=explicit, conserve=conserve, nn=nn, sort_mpo_legs=sort_legs)
+        M = model if model is not None else hm.build_model(cfg, decls, explicit_plus_hc=explicit, conserve=conserve, nn=nn,
+                                                          sort_mpo_legs=sort_legs)
+        if model is not None:
+            nn = nn and hasattr(M, 'H_bond')
     except Exception as e:  # the documented interface accepts every declaration TLC generates
         ctx.case(('c10', cfg, decls, 'build', opts), action='C10.build')
         str_eq_op = any(d.get('str', 'auto') != 'auto' and d['str'] in [o[0] for o in d['ops']] for d in decls)
@@ -237,9 +240,11 @@ def replay_case(ctx, case, combo):
             return hm.full_H_matrix(ed)
         rep('ExactDiag.from_mpo', ed_mpo, represented)
         rep('ExactDiag.from_H_mpo', ed_from_H_mpo, represented)
-        for name, fn in (('get_numpy_Hamiltonian', lambda: np.asarray(ted.get_numpy_Hamiltonian(M), dtype=complex)),
+        msites = M.lat.mps_sites()
+        for name, fn in (('get_numpy_Hamiltonian',
+                          lambda: hm.native_to_spec(np.asarray(ted.get_numpy_Hamiltonian(M), dtype=complex), msites)),
                          ('get_scipy_sparse_Hamiltonian',
-                          lambda: np.asarray(ted.get_scipy_sparse_Hamiltonian(M).toarray(), dtype=complex))):
+                          lambda: hm.native_to_spec(np.asarray(ted.get_scipy_sparse_Hamiltonian(M).toarray(), dtype=complex), msites))):
             got = attempt(ctx, case, name, opts, fn)
             if got is not None:
                 cause = None if np.array_equal(got, represented) else dict(cause=diagnose_exporter(case, M, got, explicit))
@@ -381,6 +386,81 @@ def replay_hist(ctx, cfg, hist, key, only_last=False, full=False):
 # ------------------------------------------------------------------------------------------------
 # TRACE: the real MPOGraph, judged by TLC
 # ------------------------------------------------------------------------------------------------
+def printed_value_at(txt, i):
+    """Parse the TLA+ value starting with '<<' at position i; returns (value, end position)."""
+    depth, k = 0, i
+    while k < len(txt):
+        if txt.startswith('<<', k):
+            depth += 1
+            k += 2
+        elif txt.startswith('>>', k):
+            depth -= 1
+            k += 2
+            if depth == 0:
+                return tlaval.parse_value(txt[i:k]), k
+        else:
+            k += 1
+    raise core.MachineryError('unbalanced value printed by TLC')
+
+
+def plain(v):
+    """Declaration / configuration records as plain Python data (for tla_lit and json)."""
+    if isinstance(v, dict):
+        return {str(k): plain(x) for k, x in v.items()}
+    if isinstance(v, (list, tuple)):
+        return [plain(x) for x in v]
+    if isinstance(v, (bool, np.bool_)):
+        return bool(v)
+    if isinstance(v, (int, np.integer)):
+        return int(v)
+    return str(v) if isinstance(v, tlaval.MV) else v
+
+
+def spec_obs(items):
+    """Ask TLC for the observable state (module ModelDecl: H, G2, bonds, conservation, segment) of arbitrary
+    (cfg, declaration list) pairs: a generated module EXTENDS ModelDecl and prints Obs for each pair."""
+    d = tlc.scratch('c10obs')
+    try:
+        lines = ['---- MODULE C10Obs ----', 'EXTENDS ModelDecl']
+        for n, (cfg, decls) in enumerate(items):
+            lines.append('Cfg%d == %s' % (n, tlc.tla_lit(plain(cfg))))
+            lines.append('Decls%d == %s' % (n, tlc.tla_lit(plain(decls))))
+        zero = 'MZero(Size(DimsOf(TypesOf(c))), Size(DimsOf(TypesOf(c))))'
+        lines += [
+            'RECURSIVE SumH(_, _, _)',
+            'SumH(c, ds, n) == IF n = 0 THEN %s ELSE EvalMat(MAdd(SumH(c, ds, n - 1), DeclOp(c, ds[n])))' % zero,
+            'RECURSIVE SumG(_, _, _)',
+            'SumG(c, ds, n) == IF n = 0 THEN %s ELSE EvalMat(MAdd(SumG(c, ds, n - 1), DeclStored2(c, ds[n])))' % zero,
+            'ConsOf(c, ds) == [w \\in {"Sz", "N", "parity"} |-> \\A n \\in 1..Len(ds) : '
+            '\\A k \\in 1..Len(BaseTerms(c, ds[n])) : TermConserves(TypesOf(c), BaseTerms(c, ds[n])[k], w)]',
+            'ObsOf(c, ds) == Obs(c, ds, SumH(c, ds, Len(ds)), SumG(c, ds, Len(ds)), ConsOf(c, ds))',
+        ]
+        for n in range(len(items)):
+            lines.append('ASSUME PrintT(<<"OBS", %d, ObsOf(Cfg%d, Decls%d)>>)' % (n, n, n))
+        lines.append('====')
+        mod = os.path.join(d, 'C10Obs.tla')
+        with open(mod, 'w') as f:
+            f.write('\n'.join(lines) + '\n')
+        cfgp = tlc.write_cfg(os.path.join(d, 'C10Obs.cfg'), spec='Spec',
+                             constants=dict(Lattices='<-LatticesOne', MaxDecl=0, Profile='mc'))
+        res = tlc.run(mod, cfgp, workers=1, timeout=900)
+        tlc.require_clean(res, 'C10Obs')
+        out = {}
+        txt = res.stdout
+        pos = 0
+        while True:
+            i = txt.find('"OBS"', pos)
+            if i < 0:
+                break
+            v, pos = printed_value_at(txt, txt.rfind('<<', 0, i))
+            out[v[1]] = v[2]
+        if len(out) != len(items):
+            raise core.MachineryError('C10Obs: %d of %d observations\n%s' % (len(out), len(items), txt[-1500:]))
+        return [out[n] for n in range(len(items))], res
+    finally:
+        shutil.rmtree(d, ignore_errors=True)
+
+
 def printed_value(txt, tag):
     """The TLA+ value TLC printed with PrintT(<<tag, ...>>), possibly spread over several lines."""
     i = txt.find('"%s"' % tag)
@@ -818,8 +898,47 @@ def run_canary(ctx, trace_items):
         raise core.MachineryError('canary: corrupted data was not rejected (%r)' % (kinds,))
 
 
+def run_predefined_replay(ctx, items):
+    """Predefined models: the declarations recorded from their add_* calls are evaluated by TLC (spec_obs) and every
+    representation of the real model instance is compared with that exact operator."""
+    obs, res = spec_obs([(it[0], it[1]) for it in items])
+    ctx.add_mc('C10Obs-predefined', res)
+    for it, o in zip(items, obs):
+        cfg, decls, explicit, conserve, builder, label = it
+        case = Case(cfg, decls, o)
+        if not np.any(case.expected(explicit, True)):
+            continue
+        M = builder()
+        replay_case(ctx, case, dict(explicit=explicit, conserve=conserve, sort=False, model=label), model=M)
+    ctx.trace_ok(len(items))
+
+
+def run_replay_file(ctx, path):
+    """./check C10 --replay FILE: re-execute the recorded case (the expected operator is recomputed by TLC)."""
+    with open(path) as f:
+        rec = json.load(f)
+    det = rec['detail']
+    if 'cfg' not in det or 'decls' not in det:
+        raise core.MachineryError('replay file has no (cfg, decls)')
+    obs, res = spec_obs([(det['cfg'], det['decls'])])
+    ctx.add_mc('C10Obs-replay', res)
+    case = Case(det['cfg'], det['decls'], obs[0])
+    opts = det.get('opts') or {}
+    combo = dict(explicit=bool(opts.get('explicit', False)), conserve=opts.get('conserve'), sort=bool(opts.get('sort', False)))
+    M = replay_case(ctx, case, combo)
+    if M is not None:
+        replay_options(ctx, case, M, combo)
+    ctx.trace_ok(1)
+    ctx.sample(dict(replayed=path, cfg=det['cfg'], decls=det['decls'], opts=combo))
+    print('replayed %s: %d comparisons' % (path, ctx.evaluations))
+
+
 def check(ctx):
     quick = ctx.tier == 'quick'
+    if getattr(ctx, 'replay_file', None):
+        ctx.rule = 're-execution of one recorded case'
+        run_replay_file(ctx, ctx.replay_file)
+        return
     ctx.rule = ('a case = one (lattice configuration, declaration list prefix, representation, option combination) whose '
                 'dense projection is compared with the exact matrix computed by TLC, or one real MPO graph judged by TLC; '
                 'distinct = distinct such tuples')
@@ -832,17 +951,19 @@ def check(ctx):
     if not only or 'tables' in only:
         run_site_tables(ctx)
     if not only or 'mc' in only:
-        run_replay_mc(ctx, 'LatticesMC', 1, 'ModelDecl-mc', trace_items, stride=2 if quick else 1)
+        run_replay_mc(ctx, 'LatticesMC', 1, 'ModelDecl-mc', trace_items, stride=3 if quick else 1)
         if not quick:
             run_replay_mc(ctx, 'LatticesOne', 2, 'ModelDecl-mc-depth2', trace_items, stride=3)
     if not only or 'sim' in only:
-        run_replay_sim(ctx, 'LatticesQuick' if quick else 'LatticesFull', 3, 200 if quick else 4000, trace_items)
+        run_replay_sim(ctx, 'LatticesQuick' if quick else 'LatticesFull', 3, 100 if quick else 2400, trace_items)
     if not only or 'trace' in only:
         if not trace_items:
             raise core.MachineryError('no models for the TRACE stage')
         run_trace(ctx, trace_items, 'TraceMPOGraph')
     if not only or 'predefined' in only:
-        run_trace(ctx, predefined_items(ctx), 'TraceMPOGraph-predefined')
+        pre = predefined_items(ctx)
+        run_trace(ctx, pre, 'TraceMPOGraph-predefined')
+        run_predefined_replay(ctx, pre)
     if not only or 'canary' in only:
         run_canary(ctx, trace_items)
     ctx.exhaustive = False
